@@ -37,6 +37,8 @@ Definition ucase_ok_model (c: ucase) : bool := ouv_eqb (ucase_model c) (uc_obs c
 Definition ucase_ok_ref (c: ucase) : bool := ouv_eqb (ucase_ref c) (uc_ref c).
 Definition ucase_ok_cls (c: ucase) : bool := devclass_eqb (ucase_cls c) (uc_cls c).
 Definition ucase_ok (c: ucase) : bool := ucase_ok_model c && ucase_ok_ref c && ucase_ok_cls c.
+Definition ucase_stale (c: ucase) : bool :=
+  negb (ucase_ok_model c) && ucase_ok_ref c && ouv_eqb (uc_obs c) (uc_ref c) && negb (devclass_eqb (ucase_cls c) Agree).
 
 (* ---------- Optional ---------- *)
 Record ocase := OC { oc_inner : option uv; oc_d : uv; oc_obs : option uv }.
@@ -50,11 +52,15 @@ Record pcase := PC {
   pc_ms : list cpmember;
   pc_v : uv;
   pc_obs : option uv;
+  pc_ref : option uv;        (* Python reference: the matching member's own packer *)
   pc_disj : bool             (* the Python oracle's verdict: all firing branches agree *)
 }.
 Definition pcase_ok_model (c: pcase) : bool := ouv_eqb (pack_union (map to_pmember (pc_ms c)) (pc_v c)) (pc_obs c).
 Definition pcase_ok_disj (c: pcase) : bool := Bool.eqb (wire_disjoint (map to_pmember (pc_ms c)) (pc_v c)) (pc_disj c).
 Definition pcase_ok (c: pcase) : bool := pcase_ok_model c && pcase_ok_disj c.
+(* the implementation follows the reference where the (faithful) model deviates in the listed way *)
+Definition pcase_stale (c: pcase) : bool :=
+  negb (pcase_ok_model c) && ouv_eqb (pc_obs c) (pc_ref c) && negb (wire_disjoint (map to_pmember (pc_ms c)) (pc_v c)).
 
 (* ---------- Literal ---------- *)
 Record lcase := LC {
@@ -69,3 +75,5 @@ Definition lcase_ok_model (c: lcase) : bool := ouv_eqb (lit_dec (fun _ => lc_bde
 Definition lcase_ok_ref (c: lcase) : bool := ouv_eqb (ref_lit (fun _ => lc_bdec c) (lc_lits c) (lc_v c)) (lc_ref c).
 Definition lcase_ok_homog (c: lcase) : bool := Bool.eqb (lit_homog (fun _ => lc_bdec c) (lc_lits c) (lc_v c)) (lc_homog c).
 Definition lcase_ok (c: lcase) : bool := lcase_ok_model c && lcase_ok_ref c && lcase_ok_homog c.
+Definition lcase_stale (c: lcase) : bool :=
+  negb (lcase_ok_model c) && lcase_ok_ref c && ouv_eqb (lc_obs c) (lc_ref c) && negb (lit_homog (fun _ => lc_bdec c) (lc_lits c) (lc_v c)).
